@@ -70,6 +70,9 @@ func truncate(s *slip.Scope, f slip.Object, args slip.List, depth int) slip.Valu
 	num, div = slip.NormalizeNumber(num, div)
 	switch tn := num.(type) {
 	case slip.Fixnum:
+		if div.(slip.Fixnum) == 0 {
+			slip.DivisionByZeroPanic(s, depth, slip.Symbol("truncate"), args, "divide by zero")
+		}
 		q = tn / div.(slip.Fixnum)
 		r = tn - q.(slip.Fixnum)*div.(slip.Fixnum)
 	case slip.SingleFloat:
@@ -81,6 +84,9 @@ func truncate(s *slip.Scope, f slip.Object, args slip.List, depth int) slip.Valu
 		q = slip.Fixnum(math.Trunc(float64(q.(slip.DoubleFloat))))
 		r = tn - slip.DoubleFloat(q.(slip.Fixnum))*div.(slip.DoubleFloat)
 	case *slip.LongFloat:
+		if (*big.Float)(div.(*slip.LongFloat)).Sign() == 0 {
+			slip.DivisionByZeroPanic(s, depth, slip.Symbol("truncate"), args, "divide by zero")
+		}
 		syncFloatPrec(tn, div.(*slip.LongFloat))
 		var (
 			zq big.Float
@@ -88,6 +94,9 @@ func truncate(s *slip.Scope, f slip.Object, args slip.List, depth int) slip.Valu
 			zr big.Float
 		)
 		_ = zq.Quo((*big.Float)(tn), (*big.Float)(div.(*slip.LongFloat)))
+		if zq.IsInf() {
+			slip.ArithmeticPanic(s, depth, slip.Symbol("truncate"), args, "the quotient is infinite")
+		}
 		bi, _ := zq.Int(nil)
 		q = (*slip.Bignum)(bi)
 		_ = zq.SetInt(bi)
